@@ -453,4 +453,25 @@ def depthAfter : List Tok → Nat → Option Nat
 
 def Balanced (l : List Tok) : Prop := depthAfter l 0 = some 0
 
+/-! ## The two pinned deviations as program / result transformations (used by the exact
+characterisations `read_is_tex_read_closing_early`, `endinput_is_tex_on_truncated_program`) -/
+
+/-- Close a stream that is left open on zero lines. -/
+def closeEmpty : ReadRes → ReadRes
+  | .ok toks (some []) => .ok toks none
+  | r => r
+
+/-- Delete what follows an `\endinput` (or a macro call whose body holds one) on its line. -/
+def truncItems : List Item → List Item
+  | [] => []
+  | .atom .endinput :: _ => [.atom .endinput]
+  | .atom a :: r => .atom a :: truncItems r
+  | .call body :: r => if noEndAtoms body then .call body :: truncItems r else [.call body]
+
+def truncLines (ls : List Line) : List Line := ls.map truncItems
+
+def truncFS : FS → FS
+  | [] => []
+  | (g, file) :: r => (g, truncLines file) :: truncFS r
+
 end C19
